@@ -371,6 +371,9 @@ VARIANTS["C12"] = [
 
 # ------------------------------------------------------------------------------------------------ C11
 VARIANTS["C11"] = [
+    V("rewrite-skipped-when-warnings-ignored", "fire", SG, [(
+        "                    self.meta[\"fileTimeSecs\"] = ftsec\n            self._raw = np.memmap(", "                    if not self.ignore_warnings:\n                        self.meta[\"fileTimeSecs\"] = ftsec\n            self._raw = np.memmap(")],
+      ("D2",), "the logging option also disables the repair"),
     V("real-quotient-restored", "fire", SG, [(
         "                ftsec = (\n                    self.file_bin.stat().st_size // (self.dtype.itemsize * self.nc)\n                ) / self.fs\n",
         "                ftsec = self.file_bin.stat().st_size / self.dtype.itemsize / self.nc / self.fs\n")], ("D1",), "regression of the F7 repair"),
